@@ -128,4 +128,389 @@ theorem printDate_head (d : Date) (hy : 0 ≤ d.y) : ∃ c r, printDate d = c ::
   | cons c t =>
     exact ⟨c, _, rfl, padL_digits d.y.natAbs 4 c (by simp [h])⟩
 
+
+/-! ## clear state -/
+
+def isClearMark (c : Char) : Bool := c == '*' || c == '!'
+
+/-- `clear_state` reads back the printed mark; the text that follows does not begin with a blank, and not with a
+mark when nothing was printed -/
+theorem clearState_rt (c : ClearState) (X : List Char) (hX : Stop isSpace X)
+    (hm : c = .uncleared → Stop isClearMark X) : clearState (printClear c ++ X) = .ok c X := by
+  have hsp : space0 (' ' :: X) = .ok [' '] X := by
+    simpa using space0_append (a := [' ']) (by simp [isSpace]) hX
+  cases c with
+  | uncleared =>
+    have := hm rfl
+    cases X with
+    | nil => simp [clearState, printClear, opt, alt2, char, oneOf]
+    | cons d t =>
+      have hd := (Stop_cons _ d t).1 this
+      simp [isClearMark] at hd
+      simp [clearState, printClear, opt, alt2, char, oneOf, hd]
+  | cleared => simp [clearState, printClear, opt, alt2, hsp]
+  | pending => simp [clearState, printClear, opt, alt2, char_cons_ne, hsp]
+
+/-! ## comment metadata lines: a comment is neither tag words nor a key-value pair -/
+
+theorem takeWhile_append_of_stop {p : Char → Bool} (a : List Char) {X : List Char} (hX : Stop p X) :
+    (a ++ X).takeWhile p = a.takeWhile p := by
+  induction a with
+  | nil =>
+    cases X with
+    | nil => rfl
+    | cons c r => simp [List.takeWhile, (Stop_cons p c r).1 hX]
+  | cons c a ih =>
+    by_cases hc : p c = true
+    · simp [List.takeWhile, hc, ih]
+    · simp [List.takeWhile, hc]
+
+theorem dropWhile_append_of_stop {p : Char → Bool} (a : List Char) {X : List Char} (hX : Stop p X) :
+    (a ++ X).dropWhile p = a.dropWhile p ++ X := by
+  induction a with
+  | nil =>
+    cases X with
+    | nil => rfl
+    | cons c r => simp [List.dropWhile, (Stop_cons p c r).1 hX]
+  | cons c a ih =>
+    by_cases hc : p c = true
+    · simp [List.dropWhile, hc, ih]
+    · simp [List.dropWhile, hc]
+
+theorem mem_takeWhile_sat {p : Char → Bool} : ∀ (l : List Char), ∀ x ∈ l.takeWhile p, p x = true := by
+  intro l
+  induction l with
+  | nil => simp
+  | cons c t ih =>
+    intro x hx
+    by_cases hc : p c = true
+    · simp [List.takeWhile, hc] at hx
+      rcases hx with rfl | hx
+      · exact hc
+      · exact ih x hx
+    · simp [List.takeWhile, hc] at hx
+
+theorem tagKey_eq : tagKey = takeWhile1 isTagChar := rfl
+
+theorem stop_tag_nl (rest : List Char) : Stop isTagChar ('\n' :: rest) := by
+  simp [isTagChar, isAsciiWhitespace]
+
+/-- what a successful tag item consumed -/
+theorem tagItem_shape (r rest : List Char) :
+    (∃ k r2, r = k ++ ':' :: r2 ∧ k ≠ [] ∧ (∀ c ∈ k, isTagChar c = true) ∧
+      tagItem (r ++ '\n' :: rest) = .ok k (r2 ++ '\n' :: rest)) ∨
+    (∃ z, tagItem (r ++ '\n' :: rest) = .bt z) := by
+  have hX := stop_tag_nl rest
+  have htw := takeWhile_append_of_stop r hX
+  have hdw := dropWhile_append_of_stop r hX
+  cases r with
+  | nil =>
+    right
+    exact ⟨_, tagItem_nl rest⟩
+  | cons c t =>
+    by_cases hc : isTagChar c = true
+    · have hk : tagKey ((c :: t) ++ '\n' :: rest) =
+          .ok ((c :: t).takeWhile isTagChar) ((c :: t).dropWhile isTagChar ++ '\n' :: rest) := by
+        rw [tagKey_eq]
+        simp only [List.cons_append] at htw hdw ⊢
+        simp only [takeWhile1, hc, if_true, htw, hdw]
+      simp only [List.cons_append] at hk
+      cases hd : (c :: t).dropWhile isTagChar with
+      | nil =>
+        right
+        refine ⟨'\n' :: rest, ?_⟩
+        simp [tagItem, hk, hd, char_cons_ne]
+      | cons d r2 =>
+        by_cases hdc : d = ':'
+        · subst hdc
+          left
+          refine ⟨(c :: t).takeWhile isTagChar, r2, ?_, ?_, ?_, ?_⟩
+          · rw [← hd]; exact (List.takeWhile_append_dropWhile).symm
+          · simp [List.takeWhile, hc]
+          · intro x hx; exact mem_takeWhile_sat _ x hx
+          · simp [tagItem, hk, hd]
+        · right
+          refine ⟨d :: r2 ++ '\n' :: rest, ?_⟩
+          simp [tagItem, hk, hd, char_cons_ne hdc]
+    · right
+      refine ⟨(c :: t) ++ '\n' :: rest, ?_⟩
+      have : tagKey ((c :: t) ++ '\n' :: rest) = .bt ((c :: t) ++ '\n' :: rest) := by
+        rw [tagKey_eq]
+        simp [takeWhile1, hc]
+      simp only [List.cons_append] at this
+      simp [tagItem, this]
+
+
+/-- "the rest of the line is tag words or nothing" -/
+def tagsRest (r : List Char) : Bool := r.isEmpty || isTagWordsAux r false
+
+theorem isTagWordsAux_word (k r2 : List Char) (hne : k ≠ []) (hk : ∀ c ∈ k, isTagChar c = true) (b : Bool) :
+    isTagWordsAux (k ++ ':' :: r2) b = tagsRest r2 := by
+  induction k generalizing b with
+  | nil => exact absurd rfl hne
+  | cons c t ih =>
+    have hc := hk c (by simp)
+    have hcc : c ≠ ':' := by intro e; subst e; simp [isTagChar] at hc
+    have hstep : isTagWordsAux (c :: (t ++ ':' :: r2)) b = (isTagChar c && isTagWordsAux (t ++ ':' :: r2) true) := by
+      rw [isTagWordsAux]
+      intro e; exact absurd e hcc
+    simp only [List.cons_append, hstep, hc, Bool.true_and]
+    cases t with
+    | nil => simp [isTagWordsAux, tagsRest]
+    | cons d t' => exact ih (by simp) (fun x hx => hk x (by simp [hx])) true
+
+theorem endTrimmed_suffix (a b : List Char) (h : endTrimmed (a ++ b) = true) : endTrimmed b = true := by
+  cases b with
+  | nil => rfl
+  | cons c t =>
+    unfold endTrimmed at h ⊢
+    rw [List.getLast?_append] at h
+    cases hl : (c :: t).getLast? with
+    | none => simp at hl
+    | some x => rw [hl] at h; simpa using h
+
+theorem all_of_dropWhile_nil {p : Char → Bool} : ∀ (l : List Char), l.dropWhile p = [] → ∀ x ∈ l, p x = true := by
+  intro l
+  induction l with
+  | nil => simp
+  | cons c t ih =>
+    intro h x hx
+    by_cases hc : p c = true
+    · simp [List.dropWhile, hc] at h
+      rcases List.mem_cons.mp hx with rfl | hx
+      · exact hc
+      · exact ih h x hx
+    · simp [List.dropWhile, hc] at h
+
+theorem dropWhile_space_ne_nil {r : List Char} (hne : r ≠ []) (ht : endTrimmed r = true) :
+    r.dropWhile isSpace ≠ [] := by
+  intro h
+  have h := all_of_dropWhile_nil r h
+  unfold endTrimmed at ht
+  cases hl : r.getLast? with
+  | none => exact hne (List.getLast?_eq_none_iff.mp hl)
+  | some c =>
+    rw [hl] at ht
+    have hm : c ∈ r := List.mem_of_getLast? hl
+    have := h c hm
+    simp [isSpace] at this
+    rcases this with rfl | rfl <;> simp [isRustWhitespace] at ht
+
+/-- after the tag words: blanks, then the end of the line is required -/
+theorem tagsTail_bt (r3 rest : List Char) (hne : r3 ≠ []) (he : ∀ c ∈ r3, isEol c = false) (ht : endTrimmed r3 = true) :
+    ∃ z, (space0 (r3 ++ '\n' :: rest)).andThen (fun _ r => peek lineEndingOrEof r) = .bt z := by
+  have hdw := dropWhile_append_of_stop (p := isSpace) r3 (X := '\n' :: rest) (by simp [isSpace])
+  cases hd : r3.dropWhile isSpace with
+  | nil => exact absurd hd (dropWhile_space_ne_nil hne ht)
+  | cons d t =>
+    have hmem : d ∈ r3 := by
+      have : d ∈ r3.dropWhile isSpace := by simp [hd]
+      exact (List.dropWhile_sublist _).subset this
+    have hde := he d hmem
+    simp [isEol] at hde
+    refine ⟨d :: (t ++ '\n' :: rest), ?_⟩
+    have hl : lineEndingOrEof (d :: (t ++ '\n' :: rest)) = .bt (d :: (t ++ '\n' :: rest)) := by
+      have h1 : lineEnding (d :: (t ++ '\n' :: rest)) = .bt (d :: (t ++ '\n' :: rest)) := by
+        unfold lineEnding
+        split <;> simp_all
+      simp [lineEndingOrEof, alt2, h1, eof]
+    simp [space0_eq, hdw, hd, peek, hl]
+
+/-- the tag-word loop always ends normally, on a piece of the line that is empty only if the line was tag words -/
+theorem tagLoop_total (rest : List Char) : ∀ (n : Nat) (r : List Char) (acc : List (List Char)), r.length < n →
+    (∀ c ∈ r, isEol c = false) → endTrimmed r = true →
+    ∃ acc' r3, repeat0Loop tagItem n (r ++ '\n' :: rest) acc = .ok acc' (r3 ++ '\n' :: rest) ∧
+      (∀ c ∈ r3, isEol c = false) ∧ endTrimmed r3 = true ∧ (tagsRest r = false → r3 ≠ []) := by
+  intro n
+  induction n with
+  | zero => intro r acc h; omega
+  | succ n ih =>
+    intro r acc hn he ht
+    rcases tagItem_shape r rest with ⟨k, r2, hr, hkne, hk, hitem⟩ | ⟨z, hz⟩
+    · have hlen : (r2 ++ '\n' :: rest).length < (r ++ '\n' :: rest).length := by
+        subst hr; simp; omega
+      have he2 : ∀ c ∈ r2, isEol c = false := fun c hc => he c (by subst hr; simp [hc])
+      have ht2 : endTrimmed r2 = true := by
+        subst hr
+        have := endTrimmed_suffix (k ++ [':']) r2 (by simpa using ht)
+        exact this
+      obtain ⟨acc', r3, h1, h2, h3, h4⟩ := ih r2 (acc ++ [k]) (by subst hr; simp at hn; omega) he2 ht2
+      refine ⟨acc', r3, ?_, h2, h3, ?_⟩
+      · rw [repeat0Loop_step hitem hlen, h1]
+      · intro hq
+        apply h4
+        subst hr
+        have hB := isTagWordsAux_word k r2 hkne hk false
+        simp [tagsRest, hkne] at hq
+        rw [hB] at hq
+        simpa [tagsRest] using hq
+    · refine ⟨acc, r, repeat0Loop_stop hz, he, ht, ?_⟩
+      intro hq hr
+      subst hr
+      simp [tagsRest] at hq
+
+/-- `metadata_tags` followed by the end of the line fails on a line that is not exactly tag words -/
+theorem metadataTags_bt_comment (s rest : List Char) (he : ∀ c ∈ s, isEol c = false) (ht : endTrimmed s = true)
+    (hn : tagsLike s = false) :
+    ∃ z, terminated metadataTags (peek lineEndingOrEof) (s ++ '\n' :: rest) = .bt z := by
+  have hmt : metadataTags = map (fun ts => Metadata.wordTags (ts.map String.ofList))
+      (delimited (char ':') (repeat1 tagItem) space0) := rfl
+  cases s with
+  | nil => exact ⟨'\n' :: rest, by simp [metadataTags, char_cons_ne]⟩
+  | cons c r =>
+    by_cases hc : c = ':'
+    · subst hc
+      have he1 : ∀ c ∈ r, isEol c = false := fun c hc => he c (by simp [hc])
+      have ht1 : endTrimmed r = true := endTrimmed_suffix [':'] r (by simpa using ht)
+      simp only [tagsLike] at hn
+      rcases tagItem_shape r rest with ⟨k, r2, hr, hkne, hk, hitem⟩ | ⟨z, hz⟩
+      · have he2 : ∀ c ∈ r2, isEol c = false := fun c hc => he1 c (by subst hr; simp [hc])
+        have ht2 : endTrimmed r2 = true := by
+          subst hr
+          exact endTrimmed_suffix (k ++ [':']) r2 (by simpa using ht1)
+        have hq : tagsRest r2 = false := by
+          subst hr
+          rw [isTagWordsAux_word k r2 hkne hk false] at hn
+          exact hn
+        obtain ⟨acc', r3, h1, h2, h3, h4⟩ := tagLoop_total rest ((r2 ++ '\n' :: rest).length + 1) r2 [k]
+          (by simp; omega) he2 ht2
+        obtain ⟨z, hz⟩ := tagsTail_bt r3 rest (h4 hq) h2 h3
+        refine ⟨z, ?_⟩
+        rw [hmt]
+        simp only [List.cons_append, terminated_apply, map_apply, delimited_apply, char_cons_self, Res.andThen_ok,
+          repeat1, hitem, h1]
+        cases hsp : space0 (r3 ++ '\n' :: rest) with
+        | ok a r' =>
+          rw [hsp] at hz
+          simp only [Res.andThen_ok] at hz
+          simp [hz]
+        | bt q => simp [space0_eq] at hsp
+        | cut q => simp [space0_eq] at hsp
+        | panic q => simp [space0_eq] at hsp
+        | fuel => simp [space0_eq] at hsp
+      · refine ⟨z, ?_⟩
+        rw [hmt]
+        simp [repeat1, hz]
+    · refine ⟨c :: r ++ '\n' :: rest, ?_⟩
+      have := metadataTags_bt_of_head (X := c :: r ++ '\n' :: rest) (by intro r' e; simp at e; exact hc e.1)
+      simp only [List.cons_append] at this
+      simp [this]
+
+theorem metadataValue_bt {Y : List Char} (h : Y.head? ≠ some ':') : metadataValue Y = .bt Y := by
+  cases Y with
+  | nil => simp [metadataValue, alt2, literal]
+  | cons c r =>
+    have hc : c ≠ ':' := by intro e; subst e; simp at h
+    have hc' : ¬ (':' = c) := fun e => hc e.symm
+    simp [metadataValue, alt2, literal, char_cons_ne hc, hc, hc']
+
+/-- `metadata_kv` fails on a line that does not look like `key:` -/
+theorem metadataKv_bt_comment (s rest : List Char) (hn : kvLike s = false) :
+    ∃ z, metadataKv (s ++ '\n' :: rest) = .bt z := by
+  have hX := stop_tag_nl rest
+  have htw := takeWhile_append_of_stop s hX
+  have hdw := dropWhile_append_of_stop s hX
+  cases hk : s.takeWhile isTagChar with
+  | nil =>
+    refine ⟨s ++ '\n' :: rest, ?_⟩
+    have : tagKey (s ++ '\n' :: rest) = .bt (s ++ '\n' :: rest) := by
+      rw [tagKey_eq]
+      apply takeWhile1_stop
+      cases s with
+      | nil => exact hX
+      | cons c t =>
+        by_cases hc : isTagChar c = true
+        · simp [List.takeWhile, hc] at hk
+        · simpa using hc
+    simp [metadataKv, this]
+  | cons k0 kt =>
+    have hkey : tagKey (s ++ '\n' :: rest) = .ok (s.takeWhile isTagChar) (s.dropWhile isTagChar ++ '\n' :: rest) := by
+      rw [tagKey_eq]
+      cases s with
+      | nil => simp at hk
+      | cons c t =>
+        by_cases hc : isTagChar c = true
+        · simp only [List.cons_append] at htw hdw ⊢
+          simp only [takeWhile1, hc, if_true, htw, hdw]
+        · simp [List.takeWhile, hc] at hk
+    have hdw2 := dropWhile_append_of_stop (p := isSpace) (s.dropWhile isTagChar) (X := '\n' :: rest) (by simp [isSpace])
+    have hhead : ((s.dropWhile isTagChar).dropWhile isSpace ++ '\n' :: rest).head? ≠ some ':' := by
+      simp [kvLike, hk] at hn
+      cases hd : (s.dropWhile isTagChar).dropWhile isSpace with
+      | nil => simp
+      | cons d t =>
+        rw [hd] at hn
+        simpa using hn
+    refine ⟨(s.dropWhile isTagChar).dropWhile isSpace ++ '\n' :: rest, ?_⟩
+    simp only [metadataKv, bind_apply, terminated_apply, hkey, Res.andThen_ok, space0_eq, hdw2, Res.map_ok,
+      metadataValue_bt hhead, Res.andThen_bt]
+
+/-- `line_metadata` preceded by its indentation reads back a printed comment line -/
+theorem metaLine_comment_rt (s : String) (hm : wfMetadata (.comment s) = true) (rest : List Char) :
+    preceded space1 lineMetadata (printMetaLine (.comment s) ++ rest) = .ok (.comment s) rest := by
+  simp only [wfMetadata, Bool.and_eq_true, Bool.not_eq_true'] at hm
+  obtain ⟨⟨⟨⟨h1, h2⟩, h3⟩, h4⟩, h5⟩ := hm
+  have he := noEol_mem h1
+  have hind : space1 (indent4 ++ ';' :: ' ' :: (s.toList ++ '\n' :: rest)) =
+      .ok indent4 (';' :: ' ' :: (s.toList ++ '\n' :: rest)) :=
+    space1_append (by simp [indent4]) (by simp [indent4, isSpace]) (by simp [isSpace])
+  have hs0 : space0 (' ' :: (s.toList ++ '\n' :: rest)) = .ok [' '] (s.toList ++ '\n' :: rest) := by
+    simpa using space0_append (a := [' ']) (by simp [isSpace]) (stop_space_of_notBlankStart h2 rest)
+  obtain ⟨z1, hz1⟩ := metadataTags_bt_comment s.toList rest he h3 h5
+  obtain ⟨z2, hz2⟩ := metadataKv_bt_comment s.toList rest h4
+  have hl := tillLineEnding_nl he rest
+  simp only [printMetaLine, printMetadata, List.append_assoc, List.cons_append, List.nil_append, preceded_apply, hind,
+    Res.andThen_ok, lineMetadata, delimited_apply, pair_apply, char_cons_self, hs0, Res.map_ok]
+  rw [alt2_bt hz1, alt2_bt hz2]
+  simp [hl, trimEnd_eq h3]
+
+/-- every well-formed metadata line is read back -/
+theorem metaLine_rt_all (m : Metadata) (hm : wfMetadata m = true) (rest : List Char) :
+    preceded space1 lineMetadata (printMetaLine m ++ rest) = .ok m rest := by
+  cases m with
+  | comment s => exact metaLine_comment_rt s hm rest
+  | wordTags ts => exact metaLine_rt _ hm (by intro s h; cases h) rest
+  | keyValue k v => exact metaLine_rt _ hm (by intro s h; cases h) rest
+
+/-! ## metadata blocks -/
+
+/-- the text after a block of metadata lines is not another metadata line: if it begins with a blank, the first
+non-blank character is not `;` -/
+def metaStop (rest : List Char) : Bool :=
+  match rest with
+  | [] => true
+  | c :: _ => !isSpace c || (rest.dropWhile isSpace).head? != some ';'
+
+theorem metaLine_stop {rest : List Char} (h : metaStop rest = true) : ∃ z, preceded space1 lineMetadata rest = .bt z := by
+  cases rest with
+  | nil => exact ⟨[], by simp [space1, takeWhile1]⟩
+  | cons c t =>
+    by_cases hc : isSpace c = true
+    · simp only [metaStop, hc, Bool.not_true, Bool.false_or, bne_iff_ne, ne_eq] at h
+      have hsp : space1 (c :: t) = .ok ((c :: t).takeWhile isSpace) ((c :: t).dropWhile isSpace) := by
+        simp [space1, takeWhile1, hc]
+      cases hd : (c :: t).dropWhile isSpace with
+      | nil => exact ⟨[], by simp [hsp, hd, lineMetadata]⟩
+      | cons d r =>
+        rw [hd] at h
+        have hd' : d ≠ ';' := by intro e; subst e; simp at h
+        exact ⟨d :: r, by simp [hsp, hd, lineMetadata, char_cons_ne hd']⟩
+    · exact ⟨c :: t, by simp [takeWhile1_stop (p := isSpace) (rest := c :: t) (by simpa using hc), space1]⟩
+
+theorem printMetaLine_ne_nil (m : Metadata) : printMetaLine m ≠ [] := by simp [printMetaLine, indent4]
+
+/-- `block_metadata` at the end of a line, followed by the printed metadata lines -/
+theorem blockMetadata_rt (ms : List Metadata) (hms : ∀ m ∈ ms, wfMetadata m = true) (rest : List Char)
+    (hrest : metaStop rest = true) :
+    blockMetadata ('\n' :: (ms.flatMap printMetaLine ++ rest)) = .ok ms rest := by
+  obtain ⟨z, hz⟩ := metaLine_stop hrest
+  have hloop := repeat0Loop_list (p := preceded space1 lineMetadata) (pr := printMetaLine) (fun _ => True) rest z hz
+    trivial ms (fun m hm X _ => metaLine_rt_all m (hms m hm) X) (fun m _ => printMetaLine_ne_nil m)
+    (fun _ _ _ => trivial) ((ms.flatMap printMetaLine ++ rest).length + 1) [] (by
+      have := length_le_flatMap printMetaLine ms (fun m _ => printMetaLine_ne_nil m)
+      rw [List.length_append]; omega)
+  simp only [blockMetadata, dispatchOpt, preceded_apply, lineEnding_nl, Res.andThen_ok]
+  change repeat0Loop _ _ _ [] = _
+  simpa using hloop
+
 end Okane.Unparse
